@@ -161,6 +161,41 @@ def cfg_facts(f):
              "no_exit": False}
     rets = [u for u in range(n) if not sc[u]]
     facts["no_exit"] = not rets
+    facts["returns"] = len(rets)
+    facts["same_target_cjump"] = any(
+        b.instructions[-1].__class__.__name__ == "CJump" and b.instructions[-1].lab_yes is b.instructions[-1].lab_no
+        for b in blocks)
+    facts["phi_backedge_cjump"] = False
+    # post-dominators (virtual exit = bit n)
+    pfull = (1 << (n + 1)) - 1
+    pdom = [pfull] * n
+    changed = True
+    while changed:
+        changed = False
+        for v in range(n - 1, -1, -1):
+            if not sc[v]:
+                d = 1 << n
+            else:
+                d = pfull
+                for x in sc[v]:
+                    d &= pdom[x]
+            d |= 1 << v
+            if d != pdom[v]:
+                pdom[v] = d
+                changed = True
+    # forward reachability
+    reach = [0] * n
+    for v in range(n):
+        seen_r = 0
+        work = list(sc[v])
+        while work:
+            x = work.pop()
+            if seen_r >> x & 1:
+                continue
+            seen_r |= 1 << x
+            work.extend(sc[x])
+        reach[v] = seen_r
+    facts["unmerged_branch_before_loop"] = False
     if reducible:
         headers = {}
         for u, v in retreating:
@@ -195,6 +230,49 @@ def cfg_facts(f):
             for b in loops:
                 if a != b and a in loops[b]:
                     facts["nested"] += 1
+        from ppci import ir
+        for u, v in retreating:
+            if isinstance(blocks[u].instructions[-1], ir.CJump) and any(
+                    isinstance(i, ir.Phi) for i in blocks[v].instructions):
+                facts["phi_backedge_cjump"] = True
+        # a two-way branch whose arms do not meet again at a block of their own (the common
+        # post-dominator is the function exit, or lies outside the innermost loop of the branch)
+        # while a loop header can be reached from both arms
+        hdrs = 0
+        for hd in loops:
+            hdrs |= 1 << hd
+        for u in range(n):
+            if len(sc[u]) != 2:
+                continue
+            strict = pdom[u] & ~(1 << u)
+            # immediate post-dominator: the strict post-dominator post-dominated by no other one...
+            ip = None
+            for c in range(n + 1):
+                if strict >> c & 1:
+                    others = strict & ~(1 << c)
+                    if c == n:
+                        if others == 0:
+                            ip = n
+                    elif pdom[c] & others == others:
+                        ip = c
+                        break
+            inner = None
+            for hd, body in loops.items():
+                if u in body and (inner is None or len(body) < len(loops[inner])):
+                    inner = hd
+            proper = ip is not None and ip != n and (inner is None or (ip in loops[inner] and ip != inner))
+            if not proper:
+                a, b = sc[u]
+                both = (reach[a] | 1 << a) & (reach[b] | 1 << b)
+                inside = both
+                if inner is not None:
+                    inside = 0
+                    for x in loops[inner]:
+                        inside |= 1 << x
+                    inside &= both
+                    inside &= ~(1 << inner)
+                if inside & hdrs:
+                    facts["unmerged_branch_before_loop"] = True
     return facts
 
 
@@ -594,15 +672,68 @@ def judge(mon, p, res):
 # workloads
 
 
+NARROW = "wasm-narrow-arithmetic-not-wrapped"
+CASTS = ("wasm-cast-pairs-unsupported", "wasm-float-to-int-rounds-to-nearest", "wasm-signed-to-u64-zero-extends",
+         "wasm-u32-to-f32-invalid-opcode")
+
+
+def avoided_types(avoid):
+    """IR types the generators may use under the open findings"""
+    types = list(ALL_TYPES)
+    if NARROW in avoid:
+        types = [t for t in types if t not in ("i8", "u8", "i16", "u16", "u32")]
+    if "wasm-i64-bitwise-shift-unsupported" in avoid:
+        # irgen's safe divisors / shift counts need '&' in the operand type
+        types = [t for t in types if t not in ("i64", "u64")]
+    if "wasm-integer-immediate-out-of-signed-range" in avoid:
+        types = [t for t in types if t != "u64"]
+    return types
+
+
 def gen_cfg(r, avoid, shape=None):
     cfg = {"ptr_size": 4, "shape": "mem" if r.random() < 0.3 else "ssa", "size": r.choice([6, 10, 14])}
     if shape:
         cfg["shape"] = shape
+    cfg["types"] = avoided_types(avoid)
+    if "wasm-data-segment-arguments" in avoid:
+        cfg["init_globals"] = False
+    if "wasm-invert-and-unsigned-negate-unsupported" in avoid:
+        if any(t[0] == "u" for t in cfg["types"]):
+            cfg["unops"] = False
+        else:
+            cfg["kinds_off"] = ("unop~",)
+    if any(k in avoid for k in CASTS):
+        cfg["casts"] = False
+        cfg["float_to_int"] = False
+    if "wasm-blob-copy-unsupported" in avoid:
+        cfg["blobs"] = False
+    if "wasm-function-pointer-table-index-zero" in avoid:
+        pass
     return cfg
 
 
+CFG_AVOID = [
+    # (finding key, fact, what)
+    ("structure-same-target-cjump-asserts", "same_target_cjump", "conditional jump with identical targets"),
+    ("structure-nested-loop-miscompiled", "nested", "nested loops"),
+    ("structure-loop-with-two-exit-targets-rejected", "multi_exit_loop", "loop with more than one exit target"),
+    ("structure-duplicated-code-loses-loop", "unmerged_branch_before_loop",
+     "loop reachable from both arms of a branch that has no merge block of its own"),
+    ("wasm-phi-copies-before-conditional-jump", "phi_backedge_cjump",
+     "conditional back edge into a block with phis"),
+]
+
+
 def static_avoid(module, avoid):
-    """Input-side predicates of open findings: skip modules containing the trigger construct."""
+    """Input-side predicates of open findings: the trigger construct is looked for in the
+    *generated module* (never in the outcome); modules that contain it are not used."""
+    for f in module.functions:
+        facts = cfg_facts(f)
+        for key, fact, what in CFG_AVOID:
+            if key in avoid and facts.get(fact):
+                return what
+        if not facts["reducible"] and "structure-irreducible-cfg-not-rejected" in avoid:
+            return "irreducible control flow"
     return None
 
 
